@@ -85,9 +85,10 @@ var (
 		`"q\"uo\\te\/s"`, `"tab\there\nnl\r\b\f"`, `"nul\u0000x\u001f"`, `"ls ps "`,
 		`"\ud83d\ude00 pair"`, `"lone \ud800 surrogate"`, `"ééé"`, `"ends with backslash \\"`, `"<&>"`, `"abc\\n"`, `"\\x41\\u0041\\101"`,
 	}
-	repStrMulti = []string{`"Привет, мир"`, `"日本語のログ"`, `"😀😀"`, `"é combining é"`, `"ǅ İ ß ſ K"`, `"ab cd"`}
-	repStrBad   = []string{"\"bad \xff\xfe utf8\"", "\"\xc3\"", "\"trunc \xe2\x82\"", "\"\xf0\x9f\x98\"", "\"\xed\xa0\x80 surrogate bytes\"", "\"ok \x80 cont\""}
-	repObj      = []string{`{}`, `{"a":1}`, `{"type":"cat","paws":4,"sub":{"x":[1,{"y":null}]}}`, `{"":"empty key","a.b":"dotted","a":{"b":"nested"}}`,
+	repStrMulti = []string{"\"\u212a\"", "\"10 k\u2126\"", "\"\u212b mid \u1e9e\"", "\"\u0130stanbul \u0130\"", "\"\u023a\u023e\"", "\"ends with \u212a\u2126\u212b\u1e9e\u0130\"",
+		`"Привет, мир"`, `"日本語のログ"`, `"😀😀"`, `"é combining é"`, `"ǅ İ ß ſ K"`, `"ab cd"`}
+	repStrBad = []string{"\"bad \xff\xfe utf8\"", "\"\xc3\"", "\"trunc \xe2\x82\"", "\"\xf0\x9f\x98\"", "\"\xed\xa0\x80 surrogate bytes\"", "\"ok \x80 cont\""}
+	repObj    = []string{`{}`, `{"a":1}`, `{"type":"cat","paws":4,"sub":{"x":[1,{"y":null}]}}`, `{"":"empty key","a.b":"dotted","a":{"b":"nested"}}`,
 		`{"k":"v","k":"dup"}`, `{"q\"k":"esc key","é":1,"nl\nkey":2}`}
 	repArr    = []string{`[]`, `[1,2,3]`, `["a","b"]`, `[1,"a",null,true,{"a":1},[2]]`, `[[],[[]],[[[1]]]]`, `[null]`}
 	repArrObj = []string{`[{"message":"go"},{"message":"rust"},{"message":"c++"}]`, `[{}]`, `[{"a":{"b":[{"c":1}]}},{"log":"x","level":"info"}]`, `[{"a":1},2,{"b":"é"}]`}
@@ -113,13 +114,19 @@ func longStr(rng *rand.Rand, n int) string {
 	return b.String()
 }
 
+var caseLen = []string{"\u212a", "\u2126", "\u212b", "\u1e9e", "\u0130", "\u023a", "\u023e"}
+
 // damage returns a damaged copy of a dictionary string: cut, doubled, a byte
 // removed / replaced / inserted - the shapes that break index arithmetic.
 func damage(rng *rand.Rand, s string) string {
 	if s == "" {
 		return s
 	}
-	switch rng.Intn(7) {
+	switch rng.Intn(9) {
+	case 7: // a rune whose case folding changes its length, at the end
+		return s + caseLen[rng.Intn(len(caseLen))]
+	case 8: // ... at the start
+		return caseLen[rng.Intn(len(caseLen))] + s
 	case 0:
 		return s[:rng.Intn(len(s))]
 	case 1:
@@ -131,11 +138,11 @@ func damage(rng *rand.Rand, s string) string {
 		return s[:i] + s[i+1:]
 	case 4:
 		i := rng.Intn(len(s))
-		repl := []string{"\"", "\\", "[", "]", " ", "\n", "\x00", "\xff", "=", ",", ":", "é", "{", "}", "<", ">"}
+		repl := []string{"\"", "\\", "[", "]", " ", "\n", "\x00", "\xff", "=", ",", ":", "é", "{", "}", "<", ">", "\u212a", "\u2126", "\u0130", "\u023e"}
 		return s[:i] + repl[rng.Intn(len(repl))] + s[i+1:]
 	case 5:
 		i := rng.Intn(len(s) + 1)
-		ins := []string{"\"", "\\", "\n", " ", "\t", "😀", "\xc3", "]", "[", "0"}
+		ins := []string{"\"", "\\", "\n", " ", "\t", "😀", "\xc3", "]", "[", "0", "\u212a", "\u2126", "\u212b", "\u1e9e", "\u0130", "\u023a"}
 		return s[:i] + ins[rng.Intn(len(ins))] + s[i:]
 	default:
 		i := rng.Intn(len(s))
